@@ -109,11 +109,8 @@ func zzCommitOldest(mp *mempoolImpl, m *zzPoolModel) {
 
 // ZZH_C18_hist: bounded history of pool operations with symbolic nonces / timestamps
 // (2 accounts, nonce within [committed-1, committed+2], k steps) under the C18/C19 monitors.
+// zz:also C19
 func ZZH_C18_hist() { zzPoolHist() }
-
-// ZZH_C19_hist: the same bounded exploration; the C19 labels (lookup by hash, pending nonce,
-// pending flag, drain) are the ones that matter for C19.
-func ZZH_C19_hist() { zzPoolHist() }
 
 func zzPoolHist() {
 	batchSize := uint64(1 + zz.Choice("batchSize", 2))
